@@ -2,6 +2,7 @@
 // opaque here; their view is a mathematical nat / int and the three operations the crate uses
 // (Sum<u64> through the chain shim, From<BigUint> for BigInt, Sub) are assumed to be exact.
 pub mod num {
+pub use self::rational::BigRational;
 pub mod bigint {
 use vstd::prelude::*;
 verus! {
@@ -24,6 +25,60 @@ impl From<BigUint> for BigInt {
 /// stands for `impl Sub for BigInt` (`p - n`)
 #[verifier::external_body]
 pub fn bigint_sub(p: BigInt, n: BigInt) -> (r: BigInt) ensures r@ == p@ - n@ { unimplemented!() }
+}
+}
+pub mod rational {
+use vstd::prelude::*;
+use core::cmp::Ordering;
+use vstd::std_specs::cmp::{PartialEqSpecImpl, PartialOrdSpecImpl, OrdSpecImpl};
+verus! {
+/// stands for num::BigRational: an opaque value viewed as a mathematical rational (ordered by `rat_cmp`);
+/// the crate only compares rationals and computes l + 1, h - 1 and (l + h) / 2.
+#[verifier::external_body]
+pub struct BigRational { _p: () }
+
+pub uninterp spec fn rat_cmp(a: BigRational, b: BigRational) -> Ordering;
+
+impl PartialEqSpecImpl for BigRational {
+    open spec fn obeys_eq_spec() -> bool { true }
+    open spec fn eq_spec(&self, other: &Self) -> bool { rat_cmp(*self, *other) == Ordering::Equal }
+}
+impl PartialEq for BigRational { #[verifier::external_body] fn eq(&self, other: &Self) -> bool { unimplemented!() } }
+impl Eq for BigRational {}
+impl PartialOrdSpecImpl for BigRational {
+    open spec fn obeys_partial_cmp_spec() -> bool { true }
+    open spec fn partial_cmp_spec(&self, other: &Self) -> Option<Ordering> { Some(rat_cmp(*self, *other)) }
+}
+impl PartialOrd for BigRational { #[verifier::external_body] fn partial_cmp(&self, other: &Self) -> Option<Ordering> { unimplemented!() } }
+impl OrdSpecImpl for BigRational {
+    open spec fn obeys_cmp_spec() -> bool { true }
+    open spec fn cmp_spec(&self, other: &Self) -> Ordering { rat_cmp(*self, *other) }
+}
+impl Ord for BigRational { #[verifier::external_body] fn cmp(&self, other: &Self) -> Ordering { unimplemented!() } }
+impl Clone for BigRational { #[verifier::external_body] fn clone(&self) -> (r: Self) ensures r == *self { unimplemented!() } }
+
+/// Assumed: the order on rationals is a lawful total order whose equivalence is equality of values.
+#[verifier::external_body]
+pub proof fn axiom_rational_order()
+    ensures vstd::laws_cmp::obeys_cmp::<BigRational>(),
+        forall|a: BigRational, b: BigRational| rat_cmp(a, b) == Ordering::Equal <==> a == b,
+{}
+
+#[verifier::external_body]
+pub fn rat_zero() -> (r: BigRational) { unimplemented!() }
+/// `x + BigRational::one()`
+#[verifier::external_body]
+pub fn rat_add_one(x: &BigRational) -> (r: BigRational) ensures rat_cmp(*x, r) == Ordering::Less { unimplemented!() }
+/// `x - BigRational::one()`
+#[verifier::external_body]
+pub fn rat_sub_one(x: &BigRational) -> (r: BigRational) ensures rat_cmp(r, *x) == Ordering::Less { unimplemented!() }
+/// `(l + h) / 2`
+#[verifier::external_body]
+pub fn rat_mid(l: &BigRational, h: &BigRational) -> (r: BigRational)
+    ensures rat_cmp(*l, *h) == Ordering::Less ==> rat_cmp(*l, r) == Ordering::Less && rat_cmp(r, *h) == Ordering::Less,
+            rat_cmp(*h, *l) == Ordering::Less ==> rat_cmp(*h, r) == Ordering::Less && rat_cmp(r, *l) == Ordering::Less,
+            *l == *h ==> r == *l,
+{ unimplemented!() }
 }
 }
 }
